@@ -262,7 +262,7 @@ func runImplFSched(s FSchedCase) (res fschedResult) {
 		w := workers[ev.T]
 		if w == nil {
 			if !start(ev.T) {
-				res.err = fmt.Sprintf("thread %d did not reach its first operation", ev.T)
+				res.err = fmt.Sprintf("timeout: thread %d did not reach its first operation", ev.T)
 				return
 			}
 			w = workers[ev.T]
@@ -278,7 +278,7 @@ func runImplFSched(s FSchedCase) (res fschedResult) {
 		l, ret, ok := await(w)
 		ctl.current = nil
 		if !ok {
-			res.err = fmt.Sprintf("event %d: thread %d did not reach its next operation within %v", k, ev.T, stepTimeout)
+			res.err = fmt.Sprintf("timeout: event %d: thread %d did not reach its next operation within %v", k, ev.T, stepTimeout)
 			delete(workers, ev.T)
 			return
 		}
@@ -314,7 +314,7 @@ func runImplFSched(s FSchedCase) (res fschedResult) {
 			l, ret, ok := await(w)
 			ctl.current = nil
 			if !ok {
-				res.err = fmt.Sprintf("drain: thread %d stuck at %s", t, at[t])
+				res.err = fmt.Sprintf("timeout: drain: thread %d stuck at %s", t, at[t])
 				delete(workers, t)
 				return
 			}
@@ -348,6 +348,11 @@ func runFSched(c *rig.Ctx, s FSchedCase, record bool) bool {
 		if res.err != "" {
 			schedBroken = true
 		}
+	}
+	if strings.HasPrefix(res.err, "timeout:") {
+		// a wall-clock wait ran out (twice): the machine is stalled, or the code under test hangs; either way this case
+		// decides nothing. (schedBroken is set: no further schedule is replayed.)
+		return inconclusive(c, "schedule replay", res.err)
 	}
 	if res.err != "" {
 		return fail("diff", "c05.sched-rig", "schedule replay could not run on the real limiter: "+res.err, res.steps, nil)
